@@ -7,8 +7,8 @@ git checkout -q -- . ; git apply $sd/patch.diff || { echo "$id: patch does not a
 [ -d _build ] || cmake -S . -B _build -DRBDL_BUILD_TESTS=ON -DCMAKE_BUILD_TYPE=Release >/dev/null
 cmake --build _build -j4 >/dev/null 2>&1 || { echo "$id: build with patch FAILED"; exit 2; }
 suite=$( (cd _build/tests && ./rbdl_tests) | tail -2 | tr '\n' ' ')
-RBDL_SRC=$wt sh $sd/build_and_run.sh $wt/_build >/tmp/confirm_$id.with 2>&1; with=$?
+RBDL_SRC=$wt bash $sd/build_and_run.sh $wt/_build >/tmp/confirm_$id.with 2>&1; with=$?
 git checkout -q -- .
 cmake --build _build -j4 >/dev/null 2>&1 || { echo "$id: build without patch FAILED"; exit 2; }
-RBDL_SRC=$wt sh $sd/build_and_run.sh $wt/_build >/tmp/confirm_$id.without 2>&1; without=$?
+RBDL_SRC=$wt bash $sd/build_and_run.sh $wt/_build >/tmp/confirm_$id.without 2>&1; without=$?
 echo "$id: suite[$suite] demo_with_patch_exit=$with demo_without_exit=$without"
